@@ -421,6 +421,77 @@ void run(Property<Case>& p) {
         add_note("failure of " + p.name + " did not reproduce deterministically (" + std::to_string(fails) + "/3)");
 }
 
+// ---- enumerated sub-checks (generator replaced by `for`) ---------------------------------------------------
+/// Record the outcome of one enumerated case. `body` is the self-contained text of the case, `again` re-runs it.
+/// Only the first failure per signature is kept (root causes, not inputs).
+inline bool enum_result(const std::string& prop, const Result& r, const std::function<std::string()>& body,
+                        const std::function<Result()>& again) {
+    Ctx& c = ctx();
+    if (r.ok)
+        return true;
+    if (c.known.count(r.sig)) {
+        auto& k = c.known_hits[r.sig];
+        ++k.first;
+        if (k.second.empty())
+            k.second = r.why;
+        return true;
+    }
+    for (auto& v : c.violations)
+        if (v.sig == r.sig)
+            return false;
+    if (c.violations.size() >= 6)
+        return false;
+    std::string b = body();
+    char hb[32];
+    std::snprintf(hb, sizeof hb, "%016" PRIx64, hash_str(b + r.sig));
+    std::string path = c.faildir + "/" + prop + "-" + hb + ".case";
+    std::string w = r.why;
+    std::replace(w.begin(), w.end(), '\n', ' ');
+    detail::write_file(path, "prop=" + prop + "\n" + b + (b.empty() || b.back() != '\n' ? "\n" : "") + "# sig=" + r.sig + "\n# " + w + "\n");
+    int fails = 0;
+    for (int i = 0; i < 3; ++i)
+        if (!again().ok)
+            ++fails;
+    c.violations.push_back({prop, r.sig, r.why, path, fails == 3});
+    c.subchecks[prop] = "FAIL " + r.sig;
+    return false;
+}
+
+/// --replay for enumerated sub-checks: returns true when in replay mode (whether or not the file was ours)
+inline bool enum_replay(const std::string& prop, const std::function<Result(const std::string&)>& run_body) {
+    Ctx& c = ctx();
+    if (c.replay.empty())
+        return false;
+    std::ifstream f(c.replay);
+    std::stringstream ss;
+    ss << f.rdbuf();
+    std::string all = ss.str();
+    std::string first = all.substr(0, all.find('\n'));
+    if (first != "prop=" + prop)
+        return true;
+    std::string body = all.substr(all.find('\n') + 1);
+    int fails = 0;
+    Result last;
+    for (int i = 0; i < 3; ++i) {
+        Result r = run_body(body);
+        if (!r.ok) {
+            ++fails;
+            last = r;
+        }
+    }
+    ++c.evaluations;
+    if (fails == 3) {
+        if (c.known.count(last.sig)) {
+            auto& k = c.known_hits[last.sig];
+            ++k.first;
+            k.second = last.why;
+        } else
+            c.violations.push_back({prop, last.sig, last.why, c.replay, true});
+    }
+    c.subchecks["replay:" + c.replay] = fails == 3 ? ("FAIL " + last.sig) : "pass";
+    return true;
+}
+
 inline void write_report() {
     Ctx& c = ctx();
     if (c.report.empty())
@@ -537,7 +608,7 @@ rc::Gen<T> range(T lo, T hi_exclusive) {
 /// a "boundary biased" 16 bit generator
 inline rc::Gen<uint16_t> u16b() {
     return rc::gen::weightedOneOf<uint16_t>({{3, rc::gen::element<uint16_t>(0, 1, 2, 3, 0x7FFF, 0x8000, 0xFFFF, 0xFFFE, 0x00FF, 0x0100)},
-                                             {5, rc::gen::map(rc::gen::resize(100000, rc::gen::arbitrary<uint16_t>()), [](uint16_t v) { return v; })}});
+                                             {5, rc::gen::map(rc::gen::resize(100, rc::gen::arbitrary<uint16_t>()), [](uint16_t v) { return v; })}});
 }
 
 } // namespace vf
